@@ -187,14 +187,14 @@ struct SIMDVector {
         return out;
     }
     FASTOR_INLINE T minimum() {
-        T quan = 0;
+        T quan = value[0];
         for (FASTOR_INDEX i=0; i<Size;++i)
             if (value[i]<quan)
                 quan = value[i];
         return quan;
     }
     FASTOR_INLINE T maximum() {
-        T quan = 0;
+        T quan = value[0];
         for (FASTOR_INDEX i=0; i<Size;++i)
             if (value[i]>quan)
                 quan = value[i];
